@@ -130,12 +130,16 @@ def check_transform(P, R, key):
 
 
 def run(P, R, tier):
+    from ..engines import dimrun
+    n, rets = dimrun.route(P, R, ["wccn.fit", "wccn.transform", "white.fit", "white.transform"], rules=["DIM.", "EXT."], where_prefix=["wccn:", "whitening:"])
+    R.floor("DIM/EXT obligations (WCCN / whitening)", n, 8)
     # ---- WCCN -----------------------------------------------------------------------
     f, du = check_fit_common(P, R, "wccn:WCCN.fit", inv_of=[(("X",), "the data"), (("y", "y_", "possible_labels"), "the labels"), (("n_classes", "len"), "the number of classes scales the scatter")])
     n, colls, loops, conts = idx.check_label_indexing(P, R, f, contract_0_k=False)
     idx.check_label_uses(P, R, f)
     nl = idx.check_set_loop_order(P, R, f)
-    R.floor("IDX.loops[WCCN.fit]", len(loops), 2)
+    if not any(isinstance(x, ast.Subscript) and isinstance(x.value, ast.Name) and x.value.id == "X" and isinstance(x.slice, ast.Slice) for x in ast.walk(f.node)):
+        R.floor("IDX.loops[WCCN.fit]", len(loops), 2)
     # class count = number of distinct labels
     for st, t, v, k in stores(f):
         if isinstance(t, ast.Name) and t.id == "n_classes":
@@ -157,7 +161,25 @@ def run(P, R, tier):
                 if "X" in c_l.params | c_r.params:
                     found += 1
                     R.check(lab_l and lab_r, "IDX.pair", f.key, src(st)[:70], "rows and mean selected by the same class", "centred block does not pair the rows of a class with that class's mean", st.lineno)
-    R.floor("IDX.pair[WCCN.fit]", found, 1)
+    # rows that enter the scatter are selected by label equality, never by position
+    nsel = 0
+    for n_ in walk_no_nested(f.node):
+        if isinstance(n_, ast.AugAssign) and isinstance(n_.op, ast.Add) and isinstance(n_.target, ast.Name) and any(isinstance(x, ast.BinOp) and isinstance(x.op, ast.MatMult) for x in ast.walk(n_.value)):
+            c = cone(du, n_.value, du.stmt_of(n_), interproc=False)
+            for sub in [x for x in c.nodes if isinstance(x, ast.Subscript) and isinstance(x.value, ast.Name) and x.value.id == "X"]:
+                nsel += 1
+                idxs = sub.slice.elts if isinstance(sub.slice, ast.Tuple) else [sub.slice]
+                first = idxs[0]
+                if isinstance(first, ast.Slice) and not (first.lower is None and first.upper is None):
+                    R.violation("IDX.select", f.key, f"{src(sub)} in the scatter accumulation", "the members of a class are taken as a positional slice of X: samples of one class that are not stored contiguously are split into several 'classes' with their own means, so the projection depends on the order of the samples, not only on the partition", sub.lineno)
+                else:
+                    sc = cone(du, first, du.stmt_of(n_), interproc=False)
+                    eq = any(isinstance(x, ast.Compare) and isinstance(x.ops[0], ast.Eq) for x in sc.nodes)
+                    R.check(eq, "IDX.select", f.key, f"{src(sub)} in the scatter accumulation", "selected by label equality", "class members are not selected by `y == label`", sub.lineno)
+    if found == 0 and nsel == 0:
+        R.error("WCCN.fit: neither a per-class centred block nor a scatter accumulation over X was recognised")
+    elif found == 0 and not any(o.rule == "IDX.select" and o.verdict == "violation" for o in R.obs):
+        R.floor("IDX.pair[WCCN.fit]", found, 1)
     check_transform(P, R, "wccn:WCCN.transform")
     # ---- Whitening --------------------------------------------------------------------
     f2, du2 = check_fit_common(P, R, "whitening:Whitening.fit", inv_of=[(("X",), "the data"), (("cov",), "the covariance matrix")])
